@@ -1567,6 +1567,24 @@ def _promote(ctx, rule: str = "b.promote") -> None:
                         return False
                 return True
             evs = [e for e in it.events if e.kind in ("store", "raise") and active(e)]
+            # (the selection of the converter may live in a helper with guard-clause returns and a final raise: what follows the
+            #  call is then not under the branch conditions any more - a raise whose conditions ALL hold in this situation is
+            #  certainly reached, and nothing after it happens)
+            def certain(e):
+                n_dec = 0
+                for c, pol in e.conds:
+                    v = beval(simplify(c, atoms), atoms)
+                    if v is None:
+                        if any(x in (CK, TK) for x in subterms(c)):
+                            return False
+                        continue                     # (about the form of the argument, not about the two kinds: as in active())
+                    if bool(v) != pol:
+                        return False
+                    n_dec += 1
+                return n_dec >= 1
+            stops = [e.seq for e in evs if e.kind == "raise" and certain(e)]
+            if stops:
+                evs = [e for e in evs if e.seq <= min(stops)]
             stores = [e for e in evs if e.kind == "store"]
             raises = [e for e in evs if e.kind == "raise"]
             raises = [r for r in raises if not any(x == ("name", "isinstance") for c, _ in r.conds[-1:] for x in subterms(c))]
